@@ -193,8 +193,11 @@ def exec (σ : DbModel) (st : Rows) (op : Operation) : Option (Result × Rows) :
     -- timeout 0: succeeds iff the selected rows, on `columns`, are (==) / are not (!=) the given rows as sets
     let ms ← matching ts (rowsOf st op.table) op.where_
     let expected ← op.rows.mapM (insertRow ts)
-    let same := ms.all (fun p => expected.any (fun e => agreeOn op.columns p.2 e)) &&
-                expected.all (fun e => ms.any (fun p => agreeOn op.columns p.2 e))
+    -- the compared columns: `columns` (all columns if omitted); an expected row is compared on those it gives
+    let cols := if op.columns.isEmpty then (keys ts.cols).eraseDups else op.columns
+    let pairs := op.rows.zip expected
+    let agree := fun (p : UUID × Row) (e : OvsRow × Row) => agreeOn (cols.filter (fun c => (get? e.1 c).isSome)) p.2 e.2
+    let same := ms.all (fun p => pairs.any (fun e => agree p e)) && pairs.all (fun e => ms.any (fun p => agree p e))
     if op.untilFn = "==" then (if same then pure ({}, st) else none)
     else if op.untilFn = "!=" then (if same then none else pure ({}, st))
     else none
